@@ -77,7 +77,7 @@ class TCPServer:
                     await self.idle_task.stop()
                     # The client may only have finished sending, what is
                     # still being written to it is waited for here.
-                    await task_group.wait()
+                    await self._wait_for_writes(task_group)
                 except asyncio.CancelledError:
                     # Cancelled (e.g. the graceful shutdown deadline has
                     # passed), there is no time left to wait for a client
@@ -147,6 +147,34 @@ class TCPServer:
             pass  # Already closed
         finally:
             await self.idle_task.stop()
+
+    async def _wait_for_writes(self, task_group: TaskGroup) -> None:
+        # As with a close (below), a client that has not taken any of
+        # what is being written to it for as long as an idle connection
+        # is kept is not waited for.
+        transport = getattr(self.writer, "transport", None)
+        finished = asyncio.ensure_future(task_group.wait())
+        try:
+            while not finished.done():
+                try:
+                    remaining = transport.get_write_buffer_size()
+                except AttributeError:
+                    remaining = 0
+                try:
+                    await asyncio.wait_for(
+                        asyncio.shield(finished), self.config.keep_alive_timeout
+                    )
+                except asyncio.TimeoutError:
+                    if (
+                        not finished.done()
+                        and remaining > 0
+                        and transport.get_write_buffer_size() >= remaining
+                    ):
+                        transport.abort()
+            await finished
+        finally:
+            if not finished.done():
+                finished.cancel()
 
     async def _close_writer(self) -> None:
         self.writer.close()
